@@ -18,6 +18,7 @@ import (
 	"github.com/cloudflare/circl/zk/dleq"
 	"github.com/cloudflare/circl/zk/qndleq"
 	"github.com/cloudflare/circl/zz_verif/vlib"
+	"golang.org/x/crypto/sha3"
 	"pgregory.net/rapid"
 )
 
@@ -854,6 +855,10 @@ func qndleqCase(t *rapid.T) {
 		vlib.Sample(asub, kind, adesc+" → false")
 	}
 
+	if !qnNonUnitStatements(t, P, Q, N, g, gx, h, hx, proof, desc) {
+		return
+	}
+
 	// ---- a statement false by construction: gx = g^x1, hx = h^x2 with x1 ≢ x2 modulo both
 	// p' and q', g and h of full order p'q'
 	fsub := "qndleq-false"
@@ -955,6 +960,153 @@ func qndleqCase(t *rapid.T) {
 		vlib.NonTrivial(fsub, "", []byte(cdesc))
 		vlib.Sample(fsub, cls, cdesc+" → false")
 	}
+}
+
+// qnChallengeReplica is a black-box replica of zk/qndleq's challenge (no specification exists;
+// the format is read off an honest proof and CALIBRATED per case: it is only used when it
+// reproduces the C of the honest proof, otherwise the candidate that needs it is skipped).
+// SHAKE256(g ‖ h ‖ gx ‖ hx ‖ gP ‖ hP, each as |N|-byte big-endian), first ceil(secParam/8) bytes.
+func qnChallengeReplica(g, gx, h, hx, gP, hP, N *big.Int, secParam uint) (c *big.Int, ok bool) {
+	n := (N.BitLen() + 7) / 8
+	H := sha3.NewShake256()
+	for _, v := range []*big.Int{g, h, gx, hx, gP, hP} {
+		if v.Sign() < 0 || (v.BitLen()+7)/8 > n {
+			return nil, false
+		}
+		H.Write(v.FillBytes(make([]byte, n)))
+	}
+	out := make([]byte, (secParam+7)/8)
+	H.Read(out)
+	return new(big.Int).SetBytes(out), true
+}
+
+// qnNonUnitStatements: statements in which gx and hx are BOTH non-units modulo N (0, N, p, q,
+// k·p with the known factorisation) while g and h are honest squares. They are false by
+// construction, not by convention: every power of a unit is a unit, so no x has g^x = gx.
+// (1) altered-statement relation: the honest proof with gx, hx both replaced ⇒ false;
+// (2) candidate proofs: the proof of the neighbouring true statement, arbitrary (Z, C) incl.
+// zeros, and C recomputed as the hash of the statement with the commitments a verifier that
+// mishandles the missing inverse would use (0 and 0; g^Z and h^Z). Oracle: never true.
+func qnNonUnitStatements(t *rapid.T, P, Q safePrime, N, g, gx, h, hx *big.Int, proof *qndleq.Proof, desc string) bool {
+	sub := "qndleq-nonunit"
+	one := big.NewInt(1)
+	nonUnit := func(lbl string) (*big.Int, string) {
+		kind := rapid.SampledFrom([]string{"0", "N", "p", "q", "k·p", "k·q"}).Draw(t, lbl+".kind")
+		switch kind {
+		case "0":
+			return big.NewInt(0), kind
+		case "N":
+			return new(big.Int).Set(N), kind
+		case "p":
+			return new(big.Int).Set(P.p), kind
+		case "q":
+			return new(big.Int).Set(Q.p), kind
+		}
+		k := big.NewInt(int64(rapid.IntRange(2, 1000).Draw(t, lbl+".k")))
+		if rapid.Bool().Draw(t, lbl+".big") {
+			k = drawExp(t, N, lbl+".kb")
+		}
+		f, o := P.p, Q.p
+		if kind == "k·q" {
+			f, o = Q.p, P.p
+		}
+		k.Mod(k, o) // k·f < N
+		if k.Sign() == 0 {
+			k.SetInt64(3)
+		}
+		return k.Mul(k, f), kind
+	}
+	// calibrate the challenge replica on the honest proof: gP = g^Z·gx^-C, hP = h^Z·hx^-C
+	calibrated := false
+	{
+		inv := func(b *big.Int) *big.Int { return new(big.Int).ModInverse(new(big.Int).Exp(b, proof.C, N), N) }
+		if ig, ih := inv(gx), inv(hx); ig != nil && ih != nil {
+			gP := new(big.Int).Exp(g, proof.Z, N)
+			gP.Mul(gP, ig).Mod(gP, N)
+			hP := new(big.Int).Exp(h, proof.Z, N)
+			hP.Mul(hP, ih).Mod(hP, N)
+			if c, ok := qnChallengeReplica(g, gx, h, hx, gP, hP, N, proof.SecParam); ok && c.Cmp(proof.C) == 0 {
+				calibrated = true
+			}
+		}
+		if calibrated {
+			vlib.Class(sub, "challenge-replica-calibrated-on-honest-proof")
+		} else {
+			vlib.Class(sub, "challenge-replica-does-not-match (recomputed-C candidates skipped)")
+		}
+	}
+	var ngx, nhx *big.Int
+	var kg, kh string
+	if rapid.Bool().Draw(t, "nuSame") {
+		ngx, kg = nonUnit("nu")
+		nhx, kh = new(big.Int).Set(ngx), kg
+		if kg != "0" && kg != "N" && rapid.Bool().Draw(t, "nu3") {
+			nhx.Mul(nhx, big.NewInt(3)).Mod(nhx, N) // p and 3p
+			kh = "3·" + kg
+		}
+	} else {
+		ngx, kg = nonUnit("nug")
+		nhx, kh = nonUnit("nuh")
+	}
+	if new(big.Int).GCD(nil, nil, ngx, N).Cmp(one) == 0 && ngx.Sign() != 0 || new(big.Int).GCD(nil, nil, nhx, N).Cmp(one) == 0 && nhx.Sign() != 0 {
+		t.Fatalf("harness: non-unit generator produced a unit")
+	}
+	vlib.Class(sub, "gx="+kg+",hx="+kh)
+	sdesc := fmt.Sprintf("FALSE STATEMENT (gx, hx both non-units) N=%v (p=%v q=%v) g=%v h=%v gx=%v [%s] hx=%v [%s]", N, P.p, Q.p, g, h, ngx, kg, nhx, kh)
+	type cand struct {
+		cls string
+		p   *qndleq.Proof
+	}
+	bi := func(v int64) *big.Int { return big.NewInt(v) }
+	rz := drawExp(t, N, "nuZ")
+	rcb := make([]byte, 16)
+	vlib.FillRandom(t, rcb, "nuC")
+	rc := new(big.Int).SetBytes(rcb)
+	cands := []cand{
+		{"altered-statement:honest-proof,gx-and-hx-replaced", &qndleq.Proof{Z: new(big.Int).Set(proof.Z), C: new(big.Int).Set(proof.C), SecParam: proof.SecParam}},
+	}
+	for _, spv := range []uint{verifierSecParam, 256} {
+		cands = append(cands,
+			cand{"degenerate:Z=0,C=0", &qndleq.Proof{Z: bi(0), C: bi(0), SecParam: spv}},
+			cand{"degenerate:Z=random,C=0", &qndleq.Proof{Z: rz, C: bi(0), SecParam: spv}},
+			cand{"degenerate:Z=0,C=1", &qndleq.Proof{Z: bi(0), C: bi(1), SecParam: spv}},
+			cand{"degenerate:Z=random,C=random", &qndleq.Proof{Z: rz, C: rc, SecParam: spv}},
+		)
+		if calibrated {
+			zero := bi(0)
+			for _, z := range []*big.Int{bi(0), bi(7), rz} {
+				if c, ok := qnChallengeReplica(g, ngx, h, nhx, zero, zero, N, spv); ok {
+					cands = append(cands, cand{"recomputed-C:commitments=0,0", &qndleq.Proof{Z: z, C: c, SecParam: spv}})
+				}
+				gz, hz := new(big.Int).Exp(g, z, N), new(big.Int).Exp(h, z, N)
+				if c, ok := qnChallengeReplica(g, ngx, h, nhx, gz, hz, N, spv); ok {
+					cands = append(cands, cand{"recomputed-C:commitments=g^Z,h^Z", &qndleq.Proof{Z: z, C: c, SecParam: spv}})
+				}
+				if c, ok := qnChallengeReplica(g, ngx, h, nhx, one, one, N, spv); ok {
+					cands = append(cands, cand{"recomputed-C:commitments=1,1", &qndleq.Proof{Z: z, C: c, SecParam: spv}})
+				}
+			}
+		}
+	}
+	for _, c := range cands {
+		vlib.Eval(sub)
+		cls := strings.SplitN(c.cls, ":", 2)[0]
+		vlib.Class(sub, c.cls)
+		ok, pn, st := qnVerify(c.p, g, ngx, h, nhx, N)
+		cdesc := fmt.Sprintf("%s PROOF %s %s", sdesc, c.cls, qnProofString(c.p))
+		if pn != nil {
+			vlib.Report(t, "C16/qndleq/nonunit/panic/"+vlib.PanicClass(pn), fmt.Sprintf("%s: panic %v\n%s", cdesc, pn, st))
+			return false
+		}
+		if ok {
+			vlib.Report(t, "C16/qndleq/false-statement-verifies/nonunit-statement/"+cls, cdesc+": Verify = true although gx and hx are not units (no power of g equals gx)")
+			return false
+		}
+		vlib.NonTrivial(sub, "", []byte(cdesc))
+		vlib.Sample(sub, cls, cdesc+" → false")
+	}
+	_ = desc
+	return true
 }
 
 func TestC16QNDLEQ(t *testing.T) {
